@@ -491,6 +491,10 @@ class Interp:
             return Opaque(fn.__name__ + "()", *args)
         if isinstance(fn, type) and fn in getattr(self, "class_call_models", {}):
             return self.class_call_models[fn](self, args, kwargs)  # e.g. IdMap() -> ghost map with arbitrary content
+        if isinstance(fn, SCls) and self.kind_of_cls(fn) in getattr(self, "class_call_models", {}):
+            # a parametrised class produced by a subscript model (Temporary[bool] -> SCls(Temporary, ...)): the case-level
+            # model registered for the generic class applies
+            return self.class_call_models[self.kind_of_cls(fn)](self, args, kwargs)
         if isinstance(fn, types.FunctionType) and fn.__qualname__.split(".")[0] in {c.__name__ for c in OPAQUE_CLASSES} and fn.__module__ in {c.__module__ for c in OPAQUE_CLASSES}:
             return Opaque(fn.__qualname__ + "()", *args)
         if isinstance(fn, BoundMethod):
